@@ -55,7 +55,8 @@ def check(src, rep):
     emit_p(rep, p, [r for r in p1model.skeleton(p) if r.tag in ("hunt-trim", "skeleton")], {"hunt-trim": "R3", "skeleton": "R3"})
     from sa.cross import include
     include(rep, src, "C02", {"R1", "R2", "R3", "R5"}, "R2", "every subsequent well-formed frame is delivered (the reader step refines the reference automaton; the maximum frame is admitted; the header fields the end-of-frame decision relies on are the transmitted ones)")
-    include(rep, src, "C14", {"R1"}, "R3", "read() never raises on noise (an exception half-way through a step leaves per-readout / per-frame state behind and the reader does not recover)")
+    include(rep, src, "C14", {"R1"}, "R3", "read() never raises on noise (an exception half-way through a step leaves per-readout / per-frame state behind and the reader does not recover)",
+            at_prefix=("hdlc.", "dlde."))
     rep.floor("abstract states explored", nstates, 4)
 
 
